@@ -117,3 +117,7 @@ package py
 //@   ensures wf: blockWF(f)
 //@   ensures same: ref(f.Blockstack) == old(ref(f.Blockstack)) && off(f.Blockstack) == old(off(f.Blockstack))
 //@   ensures levels: old(levelsWF(f)) ==> levelsWF(f)
+
+//@ func MakeException(r) (e)
+//@   trusted
+//@   ensures nn: e != nil
